@@ -1,0 +1,190 @@
+//go:build verif
+
+// Contracts for C14: every NFSv3 procedure result is the RFC 1813 result type for its procedure and status.
+// Checked by /verif/govc (comment-only file). The shapes below are transcribed from RFC 1813 (section 3.3.x
+// result unions, post_op_attr / pre_op_attr / wcc_data / post_op_fh3 of section 2.6), not from the code:
+//   post_op_attr = bool, then fattr3 (84 bytes) when TRUE        pre_op_attr = bool, then wcc_attr (24 bytes) when TRUE
+//   wcc_data     = pre_op_attr, post_op_attr                     post_op_fh3 = bool, then nfs_fh3 (length word + bytes) when TRUE
+// A shape predicate says where each optional part's discriminant is, that it is 0 or 1, and that the reply ends
+// exactly where the last part ends (no missing and no trailing bytes).
+package absnfs
+
+//@ specdef nfsstat3(s mathint) bool = s == 0 || s == 1 || s == 2 || s == 5 || s == 6 || s == 13 || s == 17 || s == 18 || s == 19 || s == 20 || s == 21 || s == 22 || s == 27 || s == 28 || s == 30 || s == 31 || s == 63 || s == 66 || s == 69 || s == 70 || s == 71 || (s >= 10001 && s <= 10008)
+//@ specdef boolAt(r *RPCReply, p mathint) bool = replyWord(r, p) == 0 || replyWord(r, p) == 1
+//@ specdef postOpEnd(r *RPCReply, p mathint) mathint = p + ite(replyWord(r, p) == 1, 88, 4)
+//@ specdef preOpEnd(r *RPCReply, p mathint) mathint = p + ite(replyWord(r, p) == 1, 28, 4)
+//@ specdef wccEnd(r *RPCReply, p mathint) mathint = postOpEnd(r, preOpEnd(r, p))
+//@ specdef wccAt(r *RPCReply, p mathint) bool = replyLen(r) >= p + 8 && boolAt(r, p) && replyLen(r) >= preOpEnd(r, p) + 4 && boolAt(r, preOpEnd(r, p))
+//@ specdef postOpAt(r *RPCReply, p mathint) bool = replyLen(r) >= p + 4 && boolAt(r, p)
+// nfs_fh3 at p: an opaque of at most 64 bytes; this server's handles are 8 bytes
+//@ specdef fhEnd(r *RPCReply, p mathint) mathint = p + 4 + roundup4(replyWord(r, p))
+//@ specdef fhAt(r *RPCReply, p mathint) bool = replyLen(r) >= p + 4 && replyWord(r, p) >= 0 && replyWord(r, p) <= 64
+//@ specdef postFhEnd(r *RPCReply, p mathint) mathint = ite(replyWord(r, p) == 1, fhEnd(r, p + 4), p + 4)
+//@ specdef postFhAt(r *RPCReply, p mathint) bool = replyLen(r) >= p + 4 && boolAt(r, p) && (replyWord(r, p) == 1 ==> fhAt(r, p + 4))
+
+// ---- result shapes per procedure (status word at 0)
+// GETATTR3res: OK -> fattr3 ; fail -> void
+//@ specdef shapeGetattr(r *RPCReply) bool = ite(replyStatus(r) == 0, replyLen(r) == 88, replyLen(r) == 4)
+// SETATTR3res, REMOVE3res, RMDIR3res and the *resfail of WRITE, CREATE, MKDIR, SYMLINK, MKNOD, COMMIT: wcc_data
+//@ specdef shapeWcc(r *RPCReply) bool = wccAt(r, 4) && replyLen(r) == wccEnd(r, 4)
+// the *resfail of LOOKUP, ACCESS, READLINK, READ, READDIR(PLUS), FSSTAT, FSINFO, PATHCONF: post_op_attr
+//@ specdef shapePostOp(r *RPCReply) bool = postOpAt(r, 4) && replyLen(r) == postOpEnd(r, 4)
+// LOOKUP3resok: nfs_fh3 object, post_op_attr obj_attributes, post_op_attr dir_attributes
+//@ specdef shapeLookupOK(r *RPCReply) bool = fhAt(r, 4) && postOpAt(r, fhEnd(r, 4)) && postOpAt(r, postOpEnd(r, fhEnd(r, 4))) && replyLen(r) == postOpEnd(r, postOpEnd(r, fhEnd(r, 4)))
+// ACCESS3resok: post_op_attr, uint32 access
+//@ specdef shapeAccessOK(r *RPCReply) bool = postOpAt(r, 4) && replyLen(r) == postOpEnd(r, 4) + 4
+// READLINK3resok: post_op_attr, nfspath3 (string)
+//@ specdef shapeReadlinkOK(r *RPCReply) bool = postOpAt(r, 4) && replyLen(r) >= postOpEnd(r, 4) + 4 && replyWord(r, postOpEnd(r, 4)) >= 0 && replyLen(r) == postOpEnd(r, 4) + 4 + roundup4(replyWord(r, postOpEnd(r, 4)))
+// READ3resok: post_op_attr, count3, bool eof, opaque data (its length word equals count)
+//@ specdef shapeReadOK(r *RPCReply) bool = postOpAt(r, 4) && replyLen(r) >= postOpEnd(r, 4) + 12 && boolAt(r, postOpEnd(r, 4) + 4) && replyWord(r, postOpEnd(r, 4) + 8) == replyWord(r, postOpEnd(r, 4)) && replyLen(r) == postOpEnd(r, 4) + 12 + roundup4(replyWord(r, postOpEnd(r, 4) + 8))
+// WRITE3resok: wcc_data, count3, stable_how committed (0..2), writeverf3
+//@ specdef shapeWriteOK(r *RPCReply) bool = wccAt(r, 4) && replyLen(r) == wccEnd(r, 4) + 16 && replyWord(r, wccEnd(r, 4) + 4) >= 0 && replyWord(r, wccEnd(r, 4) + 4) <= 2
+// CREATE3resok, MKDIR3resok, SYMLINK3resok, MKNOD3resok: post_op_fh3, post_op_attr, wcc_data
+//@ specdef shapeCreateOK(r *RPCReply) bool = postFhAt(r, 4) && postOpAt(r, postFhEnd(r, 4)) && wccAt(r, postOpEnd(r, postFhEnd(r, 4))) && replyLen(r) == wccEnd(r, postOpEnd(r, postFhEnd(r, 4)))
+// RENAME3res: wcc_data fromdir, wcc_data todir (both arms)
+//@ specdef shapeRename(r *RPCReply) bool = wccAt(r, 4) && wccAt(r, wccEnd(r, 4)) && replyLen(r) == wccEnd(r, wccEnd(r, 4))
+// LINK3res: post_op_attr file, wcc_data linkdir (both arms)
+//@ specdef shapeLink(r *RPCReply) bool = postOpAt(r, 4) && wccAt(r, postOpEnd(r, 4)) && replyLen(r) == wccEnd(r, postOpEnd(r, 4))
+// FSSTAT3resok: post_op_attr, 6 x uint64, uint32 invarsec ; FSINFO3resok: post_op_attr, 7 x uint32, uint64, nfstime3, uint32 ;
+// PATHCONF3resok: post_op_attr, 2 x uint32, 4 x bool ; COMMIT3resok: wcc_data, writeverf3
+//@ specdef shapeFsstatOK(r *RPCReply) bool = postOpAt(r, 4) && replyLen(r) == postOpEnd(r, 4) + 52
+//@ specdef shapeFsinfoOK(r *RPCReply) bool = postOpAt(r, 4) && replyLen(r) == postOpEnd(r, 4) + 48
+//@ specdef shapePathconfOK(r *RPCReply) bool = postOpAt(r, 4) && replyLen(r) == postOpEnd(r, 4) + 24 && boolAt(r, postOpEnd(r, 4) + 8) && boolAt(r, postOpEnd(r, 4) + 12) && boolAt(r, postOpEnd(r, 4) + 16) && boolAt(r, postOpEnd(r, 4) + 20)
+//@ specdef shapeCommitOK(r *RPCReply) bool = wccAt(r, 4) && replyLen(r) == wccEnd(r, 4) + 8
+// READDIR3resok / READDIRPLUS3resok: post_op_attr, cookieverf3, the entry list, bool eof (the list itself is covered
+// entry by entry by the C26 call-site obligations; here: the fixed part, the terminator and eof)
+//@ specdef shapeReaddirOK(r *RPCReply) bool = postOpAt(r, 4) && replyLen(r) >= postOpEnd(r, 4) + 16 && replyWord(r, replyLen(r) - 8) == 0 && boolAt(r, replyLen(r) - 4)
+
+// a handler answers with the reply record it was given, filled with a byte slice
+//@ specdef answered(r *RPCReply, res *RPCReply) bool = res == r && replyIsBytes(r) && replyLen(r) >= 4
+
+// error mapping yields only statuses RFC 1813 defines
+//@ also mapError
+//@ ensures [status-in-nfsstat3] {C14} nfsstat3(result)
+
+// NULL: void result - the reply record is returned as it came
+//@ also NFSProcedureHandler.handleNull
+//@ ensures [rfc-shape] {C14} isnil(result1) && result0 == reply && reply.Data == old(reply.Data)
+
+//@ also NFSProcedureHandler.handleGetattr
+//@ ensures [rfc-shape] {C14} isnil(result1) ==> answered(reply, result0) && ite(replyStatus(reply) == 0, shapeGetattr(reply), shapeGetattr(reply)) && (nfsstat3(replyStatus(reply)) || replyStatus(reply) == 4)
+// known finding C14-garbage-args: undecodable arguments are answered with GARBAGE_ARGS (4) in the nfsstat3 position
+//@ callassert nfsError* : [kf-garbage-args-status] {C14} !(isconst(arg1) && arg1 == 4)
+
+//@ also NFSProcedureHandler.handleSetattr
+//@ ensures [rfc-shape] {C14} isnil(result1) ==> answered(reply, result0) && ite(replyStatus(reply) == 0, shapeWcc(reply), shapeWcc(reply)) && (nfsstat3(replyStatus(reply)) || replyStatus(reply) == 4)
+// known finding C14-garbage-args: undecodable arguments are answered with GARBAGE_ARGS (4) in the nfsstat3 position
+//@ callassert nfsError* : [kf-garbage-args-status] {C14} !(isconst(arg1) && arg1 == 4)
+
+//@ also NFSProcedureHandler.handleRemove
+//@ ensures [rfc-shape] {C14} isnil(result1) ==> answered(reply, result0) && ite(replyStatus(reply) == 0, shapeWcc(reply), shapeWcc(reply)) && (nfsstat3(replyStatus(reply)) || replyStatus(reply) == 4)
+// known finding C14-garbage-args: undecodable arguments are answered with GARBAGE_ARGS (4) in the nfsstat3 position
+//@ callassert nfsError* : [kf-garbage-args-status] {C14} !(isconst(arg1) && arg1 == 4)
+
+//@ also NFSProcedureHandler.handleRmdir
+//@ ensures [rfc-shape] {C14} isnil(result1) ==> answered(reply, result0) && ite(replyStatus(reply) == 0, shapeWcc(reply), shapeWcc(reply)) && (nfsstat3(replyStatus(reply)) || replyStatus(reply) == 4)
+// known finding C14-garbage-args: undecodable arguments are answered with GARBAGE_ARGS (4) in the nfsstat3 position
+//@ callassert nfsError* : [kf-garbage-args-status] {C14} !(isconst(arg1) && arg1 == 4)
+
+//@ also NFSProcedureHandler.handleLookup
+//@ ensures [rfc-shape] {C14} isnil(result1) ==> answered(reply, result0) && ite(replyStatus(reply) == 0, shapeLookupOK(reply), shapePostOp(reply)) && (nfsstat3(replyStatus(reply)) || replyStatus(reply) == 4)
+// known finding C14-garbage-args: undecodable arguments are answered with GARBAGE_ARGS (4) in the nfsstat3 position
+//@ callassert nfsError* : [kf-garbage-args-status] {C14} !(isconst(arg1) && arg1 == 4)
+
+//@ also NFSProcedureHandler.handleAccess
+//@ ensures [rfc-shape] {C14} isnil(result1) ==> answered(reply, result0) && ite(replyStatus(reply) == 0, shapeAccessOK(reply), shapePostOp(reply)) && (nfsstat3(replyStatus(reply)) || replyStatus(reply) == 4)
+// known finding C14-garbage-args: undecodable arguments are answered with GARBAGE_ARGS (4) in the nfsstat3 position
+//@ callassert nfsError* : [kf-garbage-args-status] {C14} !(isconst(arg1) && arg1 == 4)
+
+//@ also NFSProcedureHandler.handleReadlink
+//@ ensures [rfc-shape] {C14} isnil(result1) ==> answered(reply, result0) && ite(replyStatus(reply) == 0, shapeReadlinkOK(reply), shapePostOp(reply)) && (nfsstat3(replyStatus(reply)) || replyStatus(reply) == 4)
+// known finding C14-garbage-args: undecodable arguments are answered with GARBAGE_ARGS (4) in the nfsstat3 position
+//@ callassert nfsError* : [kf-garbage-args-status] {C14} !(isconst(arg1) && arg1 == 4)
+
+//@ also NFSProcedureHandler.handleRead
+// (stepping stone: the layout of the buffer the READ3resok is taken from)
+//@ callassert bytes.Buffer.Bytes : [read-ok-layout] {C14} wlen[addr(buf)] == 104 + roundup4(len(data)) && be32(wdata[addr(buf)], 0) == 0 && be32(wdata[addr(buf)], 4) == 1 && be32(wdata[addr(buf)], 92) == len(data) && (be32(wdata[addr(buf)], 96) == 0 || be32(wdata[addr(buf)], 96) == 1) && be32(wdata[addr(buf)], 100) == len(data)
+//@ ensures [rfc-shape] {C14} isnil(result1) ==> answered(reply, result0) && ite(replyStatus(reply) == 0, shapeReadOK(reply), shapePostOp(reply)) && (nfsstat3(replyStatus(reply)) || replyStatus(reply) == 4)
+// known finding C14-garbage-args: undecodable arguments are answered with GARBAGE_ARGS (4) in the nfsstat3 position
+//@ callassert nfsError* : [kf-garbage-args-status] {C14} !(isconst(arg1) && arg1 == 4)
+
+//@ also NFSProcedureHandler.handleWrite
+//@ ensures [rfc-shape] {C14} isnil(result1) ==> answered(reply, result0) && ite(replyStatus(reply) == 0, shapeWriteOK(reply), shapeWcc(reply)) && (nfsstat3(replyStatus(reply)) || replyStatus(reply) == 4)
+// known finding C14-garbage-args: undecodable arguments are answered with GARBAGE_ARGS (4) in the nfsstat3 position
+//@ callassert nfsError* : [kf-garbage-args-status] {C14} !(isconst(arg1) && arg1 == 4)
+
+//@ also NFSProcedureHandler.handleCreate
+//@ ensures [rfc-shape] {C14} isnil(result1) ==> answered(reply, result0) && ite(replyStatus(reply) == 0, shapeCreateOK(reply), shapeWcc(reply)) && (nfsstat3(replyStatus(reply)) || replyStatus(reply) == 4)
+// known finding C14-garbage-args: undecodable arguments are answered with GARBAGE_ARGS (4) in the nfsstat3 position
+//@ callassert nfsError* : [kf-garbage-args-status] {C14} !(isconst(arg1) && arg1 == 4)
+
+//@ also NFSProcedureHandler.handleMkdir
+//@ ensures [rfc-shape] {C14} isnil(result1) ==> answered(reply, result0) && ite(replyStatus(reply) == 0, shapeCreateOK(reply), shapeWcc(reply)) && (nfsstat3(replyStatus(reply)) || replyStatus(reply) == 4)
+// known finding C14-garbage-args: undecodable arguments are answered with GARBAGE_ARGS (4) in the nfsstat3 position
+//@ callassert nfsError* : [kf-garbage-args-status] {C14} !(isconst(arg1) && arg1 == 4)
+
+//@ also NFSProcedureHandler.handleSymlink
+//@ ensures [rfc-shape] {C14} isnil(result1) ==> answered(reply, result0) && ite(replyStatus(reply) == 0, shapeCreateOK(reply), shapeWcc(reply)) && (nfsstat3(replyStatus(reply)) || replyStatus(reply) == 4)
+// known finding C14-garbage-args: undecodable arguments are answered with GARBAGE_ARGS (4) in the nfsstat3 position
+//@ callassert nfsError* : [kf-garbage-args-status] {C14} !(isconst(arg1) && arg1 == 4)
+
+//@ also NFSProcedureHandler.handleMknod
+//@ ensures [rfc-shape] {C14} isnil(result1) ==> answered(reply, result0) && ite(replyStatus(reply) == 0, shapeCreateOK(reply), shapeWcc(reply)) && (nfsstat3(replyStatus(reply)) || replyStatus(reply) == 4)
+// known finding C14-garbage-args: undecodable arguments are answered with GARBAGE_ARGS (4) in the nfsstat3 position
+//@ callassert nfsError* : [kf-garbage-args-status] {C14} !(isconst(arg1) && arg1 == 4)
+
+//@ also NFSProcedureHandler.handleRename
+//@ ensures [rfc-shape] {C14} isnil(result1) ==> answered(reply, result0) && ite(replyStatus(reply) == 0, shapeRename(reply), shapeRename(reply)) && (nfsstat3(replyStatus(reply)) || replyStatus(reply) == 4)
+// known finding C14-garbage-args: undecodable arguments are answered with GARBAGE_ARGS (4) in the nfsstat3 position
+//@ callassert nfsError* : [kf-garbage-args-status] {C14} !(isconst(arg1) && arg1 == 4)
+
+//@ also NFSProcedureHandler.handleLink
+//@ ensures [rfc-shape] {C14} isnil(result1) ==> answered(reply, result0) && ite(replyStatus(reply) == 0, shapeLink(reply), shapeLink(reply)) && (nfsstat3(replyStatus(reply)) || replyStatus(reply) == 4)
+// known finding C14-garbage-args: undecodable arguments are answered with GARBAGE_ARGS (4) in the nfsstat3 position
+//@ callassert nfsError* : [kf-garbage-args-status] {C14} !(isconst(arg1) && arg1 == 4)
+
+//@ also NFSProcedureHandler.handleReaddir
+//@ ensures [rfc-shape] {C14} isnil(result1) ==> answered(reply, result0) && ite(replyStatus(reply) == 0, shapeReaddirOK(reply), shapePostOp(reply)) && (nfsstat3(replyStatus(reply)) || replyStatus(reply) == 4)
+// known finding C14-garbage-args: undecodable arguments are answered with GARBAGE_ARGS (4) in the nfsstat3 position
+//@ callassert nfsError* : [kf-garbage-args-status] {C14} !(isconst(arg1) && arg1 == 4)
+
+//@ also NFSProcedureHandler.handleReaddirplus
+//@ ensures [rfc-shape] {C14} isnil(result1) ==> answered(reply, result0) && ite(replyStatus(reply) == 0, shapeReaddirOK(reply), shapePostOp(reply)) && (nfsstat3(replyStatus(reply)) || replyStatus(reply) == 4)
+// known finding C14-garbage-args: undecodable arguments are answered with GARBAGE_ARGS (4) in the nfsstat3 position
+//@ callassert nfsError* : [kf-garbage-args-status] {C14} !(isconst(arg1) && arg1 == 4)
+
+//@ also NFSProcedureHandler.handleFsstat
+//@ ensures [rfc-shape] {C14} isnil(result1) ==> answered(reply, result0) && ite(replyStatus(reply) == 0, shapeFsstatOK(reply), shapePostOp(reply)) && (nfsstat3(replyStatus(reply)) || replyStatus(reply) == 4)
+// known finding C14-garbage-args: undecodable arguments are answered with GARBAGE_ARGS (4) in the nfsstat3 position
+//@ callassert nfsError* : [kf-garbage-args-status] {C14} !(isconst(arg1) && arg1 == 4)
+
+//@ also NFSProcedureHandler.handleFsinfo
+//@ ensures [rfc-shape] {C14} isnil(result1) ==> answered(reply, result0) && ite(replyStatus(reply) == 0, shapeFsinfoOK(reply), shapePostOp(reply)) && (nfsstat3(replyStatus(reply)) || replyStatus(reply) == 4)
+// known finding C14-garbage-args: undecodable arguments are answered with GARBAGE_ARGS (4) in the nfsstat3 position
+//@ callassert nfsError* : [kf-garbage-args-status] {C14} !(isconst(arg1) && arg1 == 4)
+
+//@ also NFSProcedureHandler.handlePathconf
+//@ ensures [rfc-shape] {C14} isnil(result1) ==> answered(reply, result0) && ite(replyStatus(reply) == 0, shapePathconfOK(reply), shapePostOp(reply)) && (nfsstat3(replyStatus(reply)) || replyStatus(reply) == 4)
+// known finding C14-garbage-args: undecodable arguments are answered with GARBAGE_ARGS (4) in the nfsstat3 position
+//@ callassert nfsError* : [kf-garbage-args-status] {C14} !(isconst(arg1) && arg1 == 4)
+
+//@ also NFSProcedureHandler.handleCommit
+//@ ensures [rfc-shape] {C14} isnil(result1) ==> answered(reply, result0) && ite(replyStatus(reply) == 0, shapeCommitOK(reply), shapeWcc(reply)) && (nfsstat3(replyStatus(reply)) || replyStatus(reply) == 4)
+// known finding C14-garbage-args: undecodable arguments are answered with GARBAGE_ARGS (4) in the nfsstat3 position
+//@ callassert nfsError* : [kf-garbage-args-status] {C14} !(isconst(arg1) && arg1 == 4)
+
+
+// ---- RFC 1831 reply encoding (rpc_types.go): xid, REPLY, reply_stat, then accepted_reply (verifier, accept_stat,
+// and for SUCCESS the procedure result bytes / for PROG_MISMATCH mismatch_info) or rejected_reply (AUTH_ERROR, auth_stat)
+//@ specdef vbLen(r *RPCReply) mathint = len(r.Verifier.Body)
+//@ func EncodeRPCReply
+//@ prop C14
+//@ requires reply != nil && (isnil(reply.Data) || replyIsBytes(reply)) && len(reply.Verifier.Body) <= 400
+//@ modifies wlen, wdata
+//@ ensures [frame] appendFrame(valof(w), old(wlen[valof(w)])) && wlen[valof(w)] >= old(wlen[valof(w)])
+//@ ensures [header] isnil(result) ==> wlen[valof(w)] >= old(wlen[valof(w)]) + 20 && be32(wdata[valof(w)], old(wlen[valof(w)])) == reply.Header.Xid && be32(wdata[valof(w)], old(wlen[valof(w)]) + 4) == 1 && be32(wdata[valof(w)], old(wlen[valof(w)]) + 8) == reply.Status
+//@ ensures [accepted] isnil(result) && reply.Status == 0 ==> be32(wdata[valof(w)], old(wlen[valof(w)]) + 12) == reply.Verifier.Flavor && be32(wdata[valof(w)], old(wlen[valof(w)]) + 16) == vbLen(reply) && be32(wdata[valof(w)], old(wlen[valof(w)]) + 20 + roundup4(vbLen(reply))) == reply.AcceptStatus
+//@ ensures [length] isnil(result) && reply.Status == 0 ==> wlen[valof(w)] == old(wlen[valof(w)]) + 24 + roundup4(vbLen(reply)) + ite(reply.AcceptStatus == 2, 8, ite(reply.AcceptStatus == 0 && !isnil(reply.Data), replyLen(reply), 0))
+//@ ensures [mismatch-info] isnil(result) && reply.Status == 0 && reply.AcceptStatus == 2 ==> be32(wdata[valof(w)], old(wlen[valof(w)]) + 24 + roundup4(vbLen(reply))) == 3 && be32(wdata[valof(w)], old(wlen[valof(w)]) + 28 + roundup4(vbLen(reply))) == 3
+//@ ensures [result-bytes] isnil(result) && reply.Status == 0 && reply.AcceptStatus == 0 && !isnil(reply.Data) ==> forall(k, 0, replyLen(reply), wdata[valof(w)][old(wlen[valof(w)]) + 24 + roundup4(vbLen(reply)) + k] == unboxed(reply.Data, []byte)[k])
+//@ ensures [denied] isnil(result) && reply.Status != 0 ==> wlen[valof(w)] == old(wlen[valof(w)]) + 20 && be32(wdata[valof(w)], old(wlen[valof(w)]) + 12) == 1 && be32(wdata[valof(w)], old(wlen[valof(w)]) + 16) == 1
